@@ -706,6 +706,34 @@ def r1_7(F, R):
                                 "set_scope": {"%d,%s,%s" % (k[0], names[k[1]], names[k[2]]): names[v] for k, v in T_set.items()}}
 
 
+def r1_8(F, R):
+    from ..callgraph import CallGraph
+    from ..pps_run import callgraph
+    R.rule("R1.8", "undoing does not log: from the group-end restore path (SaveStackElement::restore, GroupingContainer::end_group) the call graph does not reach "
+                   "the logging assignment path (variable::update_save_stack / TypedVariable::set / the scoped GroupingContainer::insert) — a restore that "
+                   "re-enters it records the inner value in the enclosing group's log")
+    cg = callgraph(F, {"texlang.lib", "texcraft_stdext.lib"})
+    starts = {"texlang::variable::SaveStackElement::restore": ["texlang::variable::update_save_stack", "texlang::variable::TypedVariable::set", "texlang::variable::SaveStackMap::save"],
+              GC + "::end_group": [GC + "::insert"]}
+    for start, banned in starts.items():
+        roots = [f.id for f in F.fns.values() if strip_generics(f.name) == start]
+        if not roots:
+            raise AnchorError("R1.8: %s not found" % start)
+        seen = cg.reachable(roots)
+        hit = None
+        for fid in seen:
+            nm = strip_generics(F.fns[fid].name)
+            if nm in banned:
+                hit = fid
+                break
+        loc = "%s:%d" % (F.fns[roots[0]].file, F.fns[roots[0]].line)
+        if hit is None:
+            R.ok("R1.8", start, "%d functions reachable, none of %s" % (len(seen), [b.split("::")[-1] for b in banned]), loc, how="call-graph")
+        else:
+            R.violation("R1.8", start, "the restore path %s reaches the logging assignment %s (%s): restoring a value at group end saves the inner value in the "
+                        "enclosing group, so it reappears one `}` later" % (start, F.fns[hit].name, " <- ".join(reversed(cg.chain(seen, hit, 6)))), loc)
+
+
 def c01_is_generated(fn):
     return _is_serde_visitor(fn) or fn.raw.get("mac") in ("Serialize", "Deserialize", "serde::Serialize", "serde::Deserialize")
 
@@ -723,6 +751,7 @@ def run(F, R, tier):
     r1_345(F, R)
     r1_6(F, R)
     r1_7(F, R)
+    r1_8(F, R)
     if tier == "thorough":
         from .. import witness
         witness.run(R, ["C01"])
